@@ -9,6 +9,9 @@
    specification writes - in the terms of the property: counts, order, markers, texts after unescaping, and a
    file name that satisfies FileNameOK.  The specification's own XML decoder is cross-checked against expat
    on every raw value.
+   "setpkg" = setPackageName between groups / runs; "fname" = a call of the public createFileName(g) with its answer, which must
+   be a name derived from the package in force and g (FileNameOK); "restart" = testsStarted of a further run served by the same
+   reporter; "start" carries the run options given to the reporter (color, verb).
    "skip" = a test the registry counted and the filter kept from running.  At the end of a group none of whose tests
    ran the reporter may write nothing, or one well-formed file whose name is not a name of the file of a group that
    ran earlier in the run (EmptyObsOK); nothing else is asked of that file. *)
@@ -21,6 +24,7 @@ Is(op) == l <= Len(Tr) /\ Tr[l].op = op /\ l' = l + 1
 
 NoFile == E.nfiles = 0
 
+RawOK(d) == \A k \in 1..Len(d.raw) : ReadsAs(d.raw[k].ctx, d.raw[k].w, d.raw[k].dec)
 CaseObsOK(c, x, t) ==          \* observed case c, written case x, what happened t
     /\ c.name = x.name /\ c.file = x.file /\ c.line = x.line
     /\ c.skipped = x.skipped /\ c.failed = x.failed
@@ -32,16 +36,17 @@ DocObsOK(d, x) ==              \* observed document d, document x written by the
     /\ Len(d.cases) = Len(x.cases)
     /\ \A k \in 1..Len(x.cases) : CaseObsOK(d.cases[k], x.cases[k], cur[k])
     /\ d.sysout = x.sysout
-    /\ \A k \in 1..Len(d.raw) : XmlSafe(d.raw[k].ctx, d.raw[k].w) /\ XmlDec(d.raw[k].ctx, d.raw[k].w) = d.raw[k].dec
-
-RawOK(d) == \A k \in 1..Len(d.raw) : XmlSafe(d.raw[k].ctx, d.raw[k].w) /\ XmlDec(d.raw[k].ctx, d.raw[k].w) = d.raw[k].dec
+    /\ RawOK(d)
 EmptyObsOK(d) ==               \* what may be observed at the end of a group none of whose tests ran
     \/ E.nfiles = 0
     \/ /\ E.nfiles = 1 /\ d.wellformed /\ d.closed /\ RawOK(d)
-       /\ \A g \in 1..Len(done) : Ran(g) => ~FileNameOK(d.fname, done[g].pkg, done[g].grp)
+       /\ \A g \in 1..Len(done) : Ran(g) /\ done[g].pkg = pkg => ~FileNameOK(d.fname, done[g].pkg, done[g].grp)
 
 TInit == Init /\ l = 1
-TNext == \/ Is("start") /\ TestsStarted(E.ri, E.pkg) /\ NoFile
+TNext == \/ Is("start") /\ TestsStarted(E.ri, E.pkg, [color |-> E.color, verb |-> E.verb]) /\ NoFile
+         \/ Is("restart") /\ NextRun(E.ri) /\ NoFile
+         \/ Is("setpkg") /\ SetPackage(E.pkg) /\ NoFile
+         \/ Is("fname") /\ AskFileName(E.g) /\ NoFile /\ FileNameOK(E.fname, pkg, E.g)
          \/ Is("group") /\ GroupStarted(E.g) /\ NoFile
          \/ Is("test") /\ TestStarted(E.n, E.file, E.line, E.kind) /\ NoFile
          \/ Is("print") /\ PrintText(E.txt) /\ NoFile
@@ -51,19 +56,24 @@ TNext == \/ Is("start") /\ TestsStarted(E.ri, E.pkg) /\ NoFile
          \/ Is("endgroup") /\ (\E keep \in BOOLEAN : GroupEnded(keep)) /\ DocObsOK(E.doc, files'[Len(files')])
          \/ Is("endgroup") /\ (\E keep \in BOOLEAN : EmptyGroupEnded(E.nfiles > 0, keep)) /\ EmptyObsOK(E.doc)
          \/ Is("end") /\ TestsEnded /\ NoFile
-TReset == /\ Is("reset") /\ phase' = "idle" /\ runIgn' = FALSE /\ pkg' = <<>> /\ grp' = <<>>
+TReset == /\ Is("reset") /\ phase' = "idle" /\ runIgn' = FALSE /\ pkg' = <<>> /\ opt' = NoOpt /\ grp' = <<>>
           /\ rep' = NoRep @@ [stdout |-> <<>>] /\ cur' = <<>> /\ printed' = [group |-> <<>>, all |-> <<>>]
-          /\ files' = <<>> /\ done' = <<>> /\ cnt' = [g |-> 0, t |-> 0, f |-> 0, p |-> 0]
+          /\ files' = <<>> /\ done' = <<>> /\ cnt' = NoCnt
 TSpec == TInit /\ [][TNext \/ TReset]_tvars
 Accepted == TLCGet("stats").diameter - 1 = Len(Tr)
 \* Every state of the observed execution is checked and a call writes at most one document, so looking at the last
 \* document in every state examines every document (and keeps validation linear in the length of the run).
+\* (A document is written by the call that ends a group, which leaves phase = "run": that state examines it.)
 TInv == LET k == Len(files) IN
-        /\ OneFilePerGroupFrom(Len(done)) /\ NoOverwriteFrom(k) /\ SuiteCountsTrueFrom(k) /\ CasesFaithfulFrom(k) /\ OutputFaithfulFrom(k)
-        /\ WellFormedRoundTripFrom(k) /\ FileNamesOKFrom(k) /\ BookkeepingOK
+        /\ OneFilePerGroupFrom(Len(done)) /\ BookkeepingOK
+        /\ phase = "run" => /\ NoOverwriteFrom(k) /\ SuiteCountsTrueFrom(k) /\ CasesFaithfulFrom(k) /\ OutputFaithfulFrom(k)
+                             /\ WellFormedRoundTripFrom(k) /\ FileNamesOKFrom(k)
 
 \* diagnostics: the same walk with the observations unbound, printing the document the specification writes
-PNext == \/ Is("start") /\ TestsStarted(E.ri, E.pkg)
+PNext == \/ Is("start") /\ TestsStarted(E.ri, E.pkg, [color |-> E.color, verb |-> E.verb])
+         \/ Is("restart") /\ NextRun(E.ri)
+         \/ Is("setpkg") /\ SetPackage(E.pkg)
+         \/ Is("fname") /\ AskFileName(E.g)
          \/ Is("group") /\ GroupStarted(E.g)
          \/ Is("test") /\ TestStarted(E.n, E.file, E.line, E.kind)
          \/ Is("print") /\ PrintText(E.txt)
@@ -76,5 +86,5 @@ PSpec == TInit /\ [][PNext \/ TReset]_tvars
 LastDoc == IF files = <<>> THEN <<>> ELSE LET x == files[Len(files)] IN
               <<[fname |-> x.fname, suite |-> x.suite, cases |-> x.cases, sysout |-> x.sysout, groupRan |-> RanDoc(Len(files))]>>
 Predict == (l > 1 /\ l - 1 >= atoi(IOEnv.FROM_LINE_N)) =>
-              PrintT(<<"BEH", ToJson([line |-> l - 1, phase |-> phase, lastDocument |-> LastDoc])>>)
+              PrintT(<<"BEH", ToJson([line |-> l - 1, phase |-> phase, package |-> pkg, lastDocument |-> LastDoc])>>)
 =============================================================================
